@@ -549,6 +549,8 @@ def main():
         os.rename(tmp, os.path.join(VERIF, "evidence", pid + ".json"))
     print("SUMMARY property=%s tier=%s seed=%d evaluations=%d distinct_nontrivial=%d violations=%d wall=%.1fs" %
           (pid, tier, seed, agg["cases"] + agg["fuzz_execs"], distinct, len(seen), wall))
+    if args.mode:
+        print("LABELS", json.dumps(agg["labels"], sort_keys=True), "EXCLUDED", json.dumps(agg["excluded"]))
     shutil.rmtree(rundir, ignore_errors=True)
     return 1 if seen else 0
 
